@@ -342,6 +342,10 @@ type sigCase struct {
 	Signal  string `json:"signal"`            // sigterm | sigint | a mixed burst such as "sigint,sigterm"
 	N       int    `json:"n"`                 // how many signals are sent back to back
 	SlowMs  int    `json:"slow_ms,omitempty"` // the live instance's shutdown callback takes this long
+	// Extra: further instances started in the same process before the main one; with StopDuring the first of
+	// them (whose shutdown callback is slow) is stopped from another goroutine while the shutdown callbacks run
+	Extra      int  `json:"extra,omitempty"`
+	StopDuring bool `json:"stop_during,omitempty"`
 }
 
 var seq int64
@@ -355,6 +359,13 @@ func runSig(c *sigCase) (bool, error) {
 	if c.SlowMs > 0 {
 		opts = append(opts, fmt.Sprintf("slow=%d", c.SlowMs))
 	}
+	for x := 1; x <= c.Extra; x++ {
+		xo := []string{}
+		if x == 1 && c.StopDuring {
+			xo = []string{"slow=400"}
+		}
+		sc.Steps = append(sc.Steps, child.Step{Op: "load", Text: lifecycle.Text(fmt.Sprintf("x%d", x), 1, true, "", xo...)})
+	}
 	sc.Steps = append(sc.Steps, child.Step{Op: "load", Text: lifecycle.Text("g1", c.Servers, true, "", opts...)})
 	liveGen := "g1"
 	failedOnce := false
@@ -366,6 +377,9 @@ func runSig(c *sigCase) (bool, error) {
 		} else {
 			failedOnce = true
 		}
+	}
+	if c.Extra > 0 && c.StopDuring {
+		sc.Steps = append(sc.Steps, child.Step{Op: "stop-first-later", N: 150})
 	}
 	first := c.Signal
 	if strings.Contains(c.Signal, ",") {
@@ -397,6 +411,13 @@ func runSig(c *sigCase) (bool, error) {
 		count[e]++
 	}
 	desc := fmt.Sprintf("history start + reloads %+v, then %d x %s; events %v", c.Reloads, c.N, c.Signal, res.Events)
+	for x := 1; x <= c.Extra; x++ {
+		for _, ev := range []string{"shutdown", "finalshutdown"} {
+			if n := count[fmt.Sprintf("%s#x%d", ev, x)]; n != 1 {
+				return true, fmt.Errorf("%s callback of the live instance x%d ran %d times, want exactly once (%d further instances in the process; stop of x1 during the callbacks: %v) (%s)", ev, x, n, c.Extra, c.StopDuring, desc)
+			}
+		}
+	}
 	if count["shutdown#"+liveGen] != 1 {
 		return true, fmt.Errorf("shutdown callback of the live instance %s ran %d times, want exactly once (%s)", liveGen, count["shutdown#"+liveGen], desc)
 	}
@@ -404,13 +425,13 @@ func runSig(c *sigCase) (bool, error) {
 		return true, fmt.Errorf("final-shutdown callback of the live instance %s ran %d times, want exactly once (%s)", liveGen, count["finalshutdown#"+liveGen], desc)
 	}
 	for e, n := range count {
-		if strings.HasPrefix(e, "finalshutdown#") && e != "finalshutdown#"+liveGen {
+		if strings.HasPrefix(e, "finalshutdown#") && e != "finalshutdown#"+liveGen && !strings.HasPrefix(e, "finalshutdown#x") {
 			return true, fmt.Errorf("%s ran although that instance was not live at process shutdown (%s)", e, desc)
 		}
 		if strings.HasPrefix(e, "shutdown#") && n > 1 {
 			return true, fmt.Errorf("%s ran %d times (%s)", e, n, desc)
 		}
-		if strings.HasPrefix(e, "firststartup#") && e != "firststartup#g1" {
+		if strings.HasPrefix(e, "firststartup#") && e != "firststartup#g1" && !strings.HasPrefix(e, "firststartup#x") {
 			return true, fmt.Errorf("%s ran on a reload (%s)", e, desc)
 		}
 	}
@@ -437,8 +458,12 @@ func TestSignals(t *testing.T) {
 			c.Reloads = append(c.Reloads, Op{Kind: "reload", Servers: rapid.IntRange(1, 2).Draw(t, fmt.Sprintf("rs%d", i)), Graceful: true,
 				Fail: rapid.SampledFrom([]string{"", "", "setup", "startup", "listen", "makeservers"}).Draw(t, fmt.Sprintf("rf%d", i))})
 		}
+		if rapid.IntRange(0, 2).Draw(t, "multi") == 0 {
+			c.Extra = rapid.IntRange(1, 3).Draw(t, "extra")
+			c.StopDuring = rapid.Bool().Draw(t, "stopduring")
+		}
 		nt, err := runSig(c)
-		vt.Record("signals", c, nt, "signal:"+c.Signal, fmt.Sprintf("n=%d", c.N))
+		vt.Record("signals", c, nt || c.Extra > 0, "signal:"+c.Signal, fmt.Sprintf("n=%d", c.N), fmt.Sprintf("instances=%d", c.Extra+1))
 		vt.Check(t, "signals", c, err)
 	})
 }
